@@ -121,6 +121,7 @@ class World:
         self.use_writer = use_writer
         self.children = {}
         self.tmpnames = {}
+        self.sub = 0
         self._write_src(0)
 
     def close(self):
@@ -128,10 +129,16 @@ class World:
             c.kill()
         shutil.rmtree(self.root, ignore_errors=True)
 
+    def frac(self):
+        """Real mtimes have a sub-second part; the model's time unit is the whole second (what the code
+        compares: stat[ST_MTIME]).  Fractions grow with the order of events, so they never contradict it."""
+        self.sub = min(self.sub + 1, 18)
+        return self.sub * 0.05
+
     def _write_src(self, mt):
         with open(self.src, "w") as f:
             f.write("v%d x" % self.ver)
-        os.utime(self.src, (OLD, BASE + mt))
+        os.utime(self.src, (OLD, BASE + mt + self.frac()))
 
     def post(self):
         """projection of the module path"""
@@ -169,6 +176,7 @@ class World:
 
     def tick(self):
         self.now += 1
+        self.sub = 0
         return {"ev": "tick"}
 
     def delmod(self):
@@ -221,7 +229,7 @@ class World:
                 self.tmpnames.setdefault(p, set()).add(ev["name"])
             if ev.get("ev") in ("move", "writer") and os.path.exists(self.modpath):
                 # the file was published in the simulated present
-                os.utime(self.modpath, (OLD, BASE + self.now))
+                os.utime(self.modpath, (OLD, BASE + self.now + self.frac()))
             out.append(ev)
             if cmd == "go-die":
                 out.append({"ev": "crash", "p": p, "mid": False, "at": at + ":after"})
